@@ -241,13 +241,16 @@ func Cleanup(p, tok string) func() {
 
 func Err(p, tok string) error { return &E{Tok: "E:" + tok} }
 
-func Return(v interface{}, hasCl, clNil, hasErr bool, err error) {
-	ev := event{E: "return", V: D(v), HasCl: hasCl, ClNil: clNil, HasErr: hasErr}
-	if v == nil {
-		ev.Zero = true
-	} else {
-		ev.Zero = reflect.ValueOf(v).IsZero()
+// Return logs what the injector returned. vp is a POINTER to the result variable, so that zero-ness is judged
+// for the declared result type (a nil interface, not a zero struct inside a non-nil interface).
+func Return(vp interface{}, hasCl, clNil, hasErr bool, err error) {
+	el := reflect.ValueOf(vp).Elem()
+	var v interface{}
+	if el.IsValid() && el.CanInterface() {
+		v = el.Interface()
 	}
+	ev := event{E: "return", V: D(v), HasCl: hasCl, ClNil: clNil, HasErr: hasErr}
+	ev.Zero = !el.IsValid() || el.IsZero()
 	if err != nil {
 		if e, ok := err.(*E); ok {
 			ev.Err = e.Tok
